@@ -896,6 +896,139 @@ fn honest_message(ssa: &Circuit, reg: &Option<rc::Circuit>, ch: Channel) -> Resu
     }
 }
 
+thread_local! {
+    /// the receiving engine's own compilation of the program both sides agreed on (type-checked
+    /// program + main function: what `Evaluator` needs besides the circuit it was sent)
+    static ENGINE_PROGRAM: std::cell::RefCell<Option<(String, Option<std::rc::Rc<garble_lang::GarbleProgram>>)>> = const { std::cell::RefCell::new(None) };
+}
+
+fn engine_literal(ty: &garble_lang::ast::Type, mode: u8, p: &mut Prng) -> Option<garble_lang::literal::Literal> {
+    use garble_lang::ast::Type;
+    use garble_lang::literal::Literal;
+    use garble_lang::token::{SignedNumType as S, UnsignedNumType as U};
+    let bit = |p: &mut Prng| match mode {
+        0 => false,
+        1 => true,
+        _ => p.chance(1, 2),
+    };
+    Some(match ty {
+        Type::Bool => {
+            if bit(p) {
+                Literal::True
+            } else {
+                Literal::False
+            }
+        }
+        Type::Unsigned(u) => {
+            let (max, _) = match u {
+                U::U8 => (u8::MAX as u64, 8),
+                U::U16 => (u16::MAX as u64, 16),
+                U::U32 | U::Usize => (u32::MAX as u64, 32),
+                U::U64 => (u64::MAX, 64),
+                U::Unspecified => return None,
+            };
+            let v = match mode {
+                0 => 0,
+                1 => max,
+                _ => p.next_u64() & max,
+            };
+            Literal::NumUnsigned(v, *u)
+        }
+        Type::Signed(sg) => {
+            let (min, max) = match sg {
+                S::I8 => (i8::MIN as i64, i8::MAX as i64),
+                S::I16 => (i16::MIN as i64, i16::MAX as i64),
+                S::I32 => (i32::MIN as i64, i32::MAX as i64),
+                S::I64 => (i64::MIN, i64::MAX),
+                S::Unspecified => return None,
+            };
+            let v = match mode {
+                0 => 0,
+                1 => -1,
+                _ => (p.next_u64() as i64).clamp(min, max),
+            };
+            Literal::NumSigned(v, *sg)
+        }
+        Type::Array(e, n) if *n <= 64 => Literal::Array((0..*n).map(|_| engine_literal(e, mode, p)).collect::<Option<Vec<_>>>()?),
+        Type::Tuple(ts) => Literal::Tuple(ts.iter().map(|t| engine_literal(t, mode, p)).collect::<Option<Vec<_>>>()?),
+        _ => return None,
+    })
+}
+
+/// An engine that does not call `eval` itself: it hands the circuit it received to the library's
+/// `Evaluator` together with its own type-checked copy of the program, supplies one well-typed
+/// argument per party and calls `run()`. For a validated circuit that must return Ok or Err,
+/// never panic (the Evaluator's pre-checks are part of the property's anchors).
+fn engine_path(w: &World, ct: &CircuitType, obs: &mut Obs, seedtag: u64) {
+    let Some(prog) = &w.program else { return };
+    if prog.src.len() > 4000 {
+        return;
+    }
+    let accepted = match ct {
+        CircuitType::Ssa(c) => !ssa_is_huge(c) && small_inputs(&c.input_gates) && matches!(guarded(|| c.validate()), Ok(Ok(()))),
+        CircuitType::Register(c) => !reg_is_huge(c) && small_inputs(&c.input_regs) && matches!(guarded(|| c.validate()), Ok(Ok(()))),
+    };
+    if !accepted {
+        return;
+    }
+    let key = format!("{}|{}", w.dedup, prog.src);
+    let gp = ENGINE_PROGRAM.with(|c| {
+        let mut c = c.borrow_mut();
+        if c.as_ref().map(|(k, _)| *k != key).unwrap_or(true) {
+            let consts = build_consts(&prog.consts, &[], 0);
+            let src = prog.src.clone();
+            let r = guarded(move || garble_lang::compile_with_constants(&src, consts)).ok().and_then(|r| r.ok());
+            *c = Some((key.clone(), r.map(std::rc::Rc::new)));
+        }
+        c.as_ref().and_then(|(_, g)| g.clone())
+    });
+    let Some(gp) = gp else { return };
+    // well-typed arguments have the shape of the program's own circuit; only if the received
+    // circuit declares the same shape are they "inputs of the declared shape" (otherwise run() is
+    // expected to return Err, and a panic there is outside the property)
+    let same_shape = gp.circuit.input_lengths().eq(ct.input_lengths());
+    let mut p = Prng::new(seedtag ^ 0xE9);
+    for mode in 0..3u8 {
+        let mut args = vec![];
+        for param in &gp.main.params {
+            match engine_literal(&param.ty, mode, &mut p) {
+                Some(l) => args.push(l),
+                None => {
+                    bump(&mut obs.counters, "engine_path_skipped_parameter_type");
+                    return;
+                }
+            }
+        }
+        obs.executions += 1;
+        let r = guarded(|| {
+            let mut ev = garble_lang::eval::Evaluator::new(&gp.program, &gp.main, ct, &gp.const_sizes);
+            for a in args {
+                if ev.set_literal(a).is_err() {
+                    return 2u8;
+                }
+            }
+            match ev.run() {
+                Ok(_) => 0,
+                Err(_) => 1,
+            }
+        });
+        match r {
+            Ok(0) => bump(&mut obs.counters, "engine_path_run_ok"),
+            Ok(1) => bump(&mut obs.counters, "engine_path_run_err"),
+            Ok(_) => bump(&mut obs.counters, "engine_path_literal_rejected"),
+            Err(_) if !same_shape => bump(&mut obs.counters, "engine_path_panicked_on_inputs_of_another_shape_not_judged"),
+            Err(m) => {
+                obs.findings.push(Finding {
+                    class: "eval_panicked".into(),
+                    signature: format!("eval_panicked:evaluator@{}", panic_site(&m)),
+                    what: format!("validate() accepted the circuit, but the library's Evaluator (set_literal with well-typed arguments, then run()) panicked: {m}"),
+                });
+                return;
+            }
+        }
+    }
+}
+
 /// only circuits whose inputs can actually be supplied are worth a child process
 fn small_inputs(parties: &[usize]) -> bool {
     circ_ref::total_bits(parties).map(|b| b <= MAX_EVAL_BITS).unwrap_or(false)
@@ -925,6 +1058,7 @@ fn receive(w: &World, ch: Channel, msg: &[u8], honest: bool, orig_hash: Option<u
                     huge_via_child(w, "ssa", obs);
                 } else {
                     inspect_ssa(&c, honest, obs, seedtag, true);
+                    engine_path(w, &CircuitType::Ssa(c), obs, seedtag);
                 }
                 obs.summary = "deserialised SSA".into();
             }
@@ -939,6 +1073,7 @@ fn receive(w: &World, ch: Channel, msg: &[u8], honest: bool, orig_hash: Option<u
                     huge_via_child(w, "reg", obs);
                 } else {
                     inspect_reg(&c, honest, obs, seedtag);
+                    engine_path(w, &CircuitType::Register(c), obs, seedtag);
                 }
                 obs.summary = "deserialised register circuit".into();
             }
@@ -952,8 +1087,14 @@ fn receive(w: &World, ch: Channel, msg: &[u8], honest: bool, orig_hash: Option<u
                 match &ct {
                     CircuitType::Ssa(c) if ssa_is_huge(c) && small_inputs(&c.input_gates) => huge_via_child(w, "ssa", obs),
                     CircuitType::Register(c) if reg_is_huge(c) && small_inputs(&c.input_regs) => huge_via_child(w, "reg", obs),
-                    CircuitType::Ssa(c) => inspect_ssa(c, honest, obs, seedtag, true),
-                    CircuitType::Register(c) => inspect_reg(c, honest, obs, seedtag),
+                    CircuitType::Ssa(c) => {
+                        inspect_ssa(c, honest, obs, seedtag, true);
+                        engine_path(w, &ct, obs, seedtag);
+                    }
+                    CircuitType::Register(c) => {
+                        inspect_reg(c, honest, obs, seedtag);
+                        engine_path(w, &ct, obs, seedtag);
+                    }
                 }
                 obs.summary = "deserialised CircuitType".into();
             }
